@@ -26,7 +26,7 @@ PLAN = {
     "C01": dict(
         title="Backpropagated gradients are the true derivatives of the objective",
         level="proof",
-        verus=["C01_conv_backward.rs", "C01_deconv_backward.rs", "C01_maxpool_backward.rs", "C07_activations.rs", "C16_skip_backward.rs", "C02_dense.rs", "C01_feedback_backward.rs", "C01_backward_glue.rs"],
+        verus=["C01_conv_backward.rs", "C01_deconv_backward.rs", "C01_maxpool_backward.rs", "C07_activations.rs", "C16_skip_backward.rs", "C02_dense.rs", "C01_feedback_backward.rs", "C01_backward_glue.rs", "C15_hadamard3d.rs"],
         kani=True,
         native_checks=[("network.gradient", "bounded native grid: backward() against exact step-1 difference quotients on 5 architectures mixing dense / convolution / deconvolution and flat<->spatial transitions (integer data, linear activations)"),
                        ("dense.linear.backward", "bounded native grid: Dense::backward of a linear layer: input gradient W^T g, weight gradient g x^T, bias gradient g iff the layer has a bias, on every rows x cols up to 5 x 5 (non-square included), integer data (exact)")],
@@ -191,7 +191,7 @@ PLAN = {
     "C15": dict(
         title="Element-wise tensor arithmetic is exact, rank-generic and shape-checked",
         level="proof",
-        verus=["C15_tensor_ops.rs", "C15_transpose.rs", "C15_mean_pick.rs", "C15_dot_product.rs", "C15_clamp_whole.rs", "C15_inplace_whole.rs"],
+        verus=["C15_tensor_ops.rs", "C15_transpose.rs", "C15_mean_pick.rs", "C15_dot_product.rs", "C15_clamp_whole.rs", "C15_inplace_whole.rs", "C15_hadamard3d.rs"],
         kani=True,
         native_checks=[("tensor.elementwise", "bounded native grid: add / sub / mul / scaled Hadamard / div-by-scalar in place, clamp and the mean over 3 tensors on operands of ranks 1-D..4-D with every extent tuple up to 3 (non-square included): shape field and nesting unchanged, every cell = the operator on the operand cells at the same nested index (bit-exact); operands of different shapes refused"),
                        ("tensor.linear", "bounded native grid: dot, outer product and transpose on every rows x cols up to 5 x 5 (non-square included), integer data (exact): each against its index definition, shapes included")],
@@ -234,6 +234,7 @@ PLAN = {
         level="proof",
         verus=["C18_shuffle.rs", "C18_tensor_random.rs"],
         kani=True,
+        native_checks=[("random.shapes", "bounded native grid: Tensor::random on every extent tuple up to 3 of ranks 1-D..4-D (non-square included) x 4 intervals (degenerate and huge included): requested shape recorded, data extents = requested, every entry in [min, max]; shuffle of a vector with repeated elements (lengths 1..84, varying seeds): same multiset, no panic")],
         undecided_clauses=["Tensor::random is proved as a whole function for every requested shape of ranks 1-D..4-D (unit tensor.random, R60) against the contracts of create / generate that Kani proves on the real bodies for all states; the bounded Kani harnesses (2 entries) stay as a cross-check that executes the real iterator chain",
                            "shuffle is proved for every length and every generated number (Verus, unit random.shuffle) under std's specification of `swap`; uniformity of the permutation is not a property here",
                            "the generate contract inside shuffle's Verus unit is `any f32` (nothing about generate is needed); the float->usize cast is opaque (any value)"],
